@@ -378,7 +378,8 @@ func c01Explore(c *sup.Ctx, name string, seeds []*poolToken, u *c01Universe, dep
 						} else {
 							w.Mark(0, "")
 						}
-						sup.Guard(w, fmt.Sprintf("%s %v", ns.seed, ns.path), func() { c01Verify(w, u, ns, ser) })
+						w.SetCase(c01Case{Seed: ns.seed, Path: ns.path, Hex: fmt.Sprintf("%x", ser)})
+					sup.Guard(w, fmt.Sprintf("%s %v", ns.seed, ns.path), func() { c01Verify(w, u, ns, ser) })
 						if keep {
 							local = append(local, ns)
 						}
@@ -440,33 +441,6 @@ func init() {
 				small = c01BuildUniverse(sub)
 				return nil
 			}
-			replay := func(raw json.RawMessage, w *sup.W) {
-				var cs c01Case
-				if err := json.Unmarshal(raw, &cs); err != nil {
-					return
-				}
-				if err := prep(); err != nil {
-					return
-				}
-				var ser []byte
-				fmt.Sscanf(cs.Hex, "%x", &ser)
-				env, err := wire.DecodeEnvelope(ser)
-				if err != nil {
-					// byte-level case: only the safety direction
-					for _, root := range []int{1, 2, 0} {
-						if acc, _ := libAccepts(ser, rootPub(root)); acc {
-							w.SetCase(cs)
-							w.Violate("C01:accepts-undecodable-bytes", cs.Seed, "accepted", "rejected")
-						}
-					}
-					return
-				}
-				if len(cs.Path) > 0 && cs.Path[0] == "byte-level" {
-					c01ByteCase(w, cs.Seed, cs.Path[1], ser)
-					return
-				}
-				c01Verify(w, full, &c01State{env: env, path: cs.Path, seed: cs.Seed}, ser)
-			}
 			mk := func(name string, run func(c *sup.Ctx)) *sup.Space {
 				return &sup.Space{Name: name, RunAll: func(c *sup.Ctx) {
 					if err := prep(); err != nil {
@@ -476,7 +450,7 @@ func init() {
 						return
 					}
 					run(c)
-				}, ReplayCase: replay}
+				}, ReplayCase: c01ReplayGeneric}
 			}
 			spaces := []*sup.Space{
 				mk("pool-accepted-under-own-root", func(c *sup.Ctx) {
